@@ -338,7 +338,10 @@ class StmtMixin:
             raise LoweringError('structured binding in range-for')
         lname = self.local_name(loopvar)
         self.cur['locals'][loopvar['id']] = (lname, lt.is_ref())
-        if lt.is_ref():
+        if lt.is_ref() and fam == 'map':
+            # the entry type of the single-key view and the pair type of the loop variable have the same layout (first, second)
+            out.append(f'{i3}{self.decl(lt, lname)} = ({self.ctype(lt)})&{elem};')
+        elif lt.is_ref():
             out.append(f'{i3}{self.decl(lt, lname)} = &{elem};')
         else:
             out.append(f'{i3}{self.decl(lt, lname)} = {elem};')
